@@ -1,7 +1,12 @@
-"""C15 - polynomial trajectories meet all boundary conditions with consistent derivatives (harness/h_poly.c)."""
+"""C15 - polynomial trajectories meet all boundary conditions with consistent derivatives (harness/h_poly.c; float/long double: h_poly_w.c)."""
 
 SPEC = dict(
     harness=['h_poly.c', 'h_poly_ext.c'],
+    # the default (double) build runs the full harness; the other two real widths run a compact type-generic companion
+    configs=lambda tier: [dict(name='f64'), dict(name='f32', real=4, harness=['h_poly_w.c']), dict(name='f80', real=16, harness=['h_poly_w.c']),
+                          dict(name='cxx', harness=['h_cxxw.c', 'h_cxxw_shim.cc'], hflags=['-DVF_CXXW=15'])],
+    parallel_configs=4,
+    workers={'quick': 12, 'thorough': 36},
     level='exploration',
     rule='boundary data sets are drawn at random: main regime = every boundary value non-zero, sign random, magnitude log-uniform in '
          '[1e-3,1e3), duration ts log-uniform in [1e-4,1e4), an exact power of two 2^-13..2^13, or (one draw in five) log-uniform in [1e-38,1e38) (1 set in 16 is "sparse": zeros and '
@@ -14,6 +19,7 @@ SPEC = dict(
          'data sets; a_poly_* vectors do not contribute to it.',
     exhaustive={'quick': None, 'thorough': None},
     require=[
+        'a_trajpoly3::gen(3 args)', 'a_trajpoly5::gen(3 args)', 'a_trajpoly7::gen(3 args)', 'a_trajpoly7::gen(9 args)', 'a_trajpoly3::pos', 'a_trajpoly5::vel', 'a_trajpoly7::jer', 'a_trajpoly7::c3', 'a_trajpoly5::c2', 'a_trajpoly3::c0',
         # time 0
         't0/pos==p0-bitwise', 't0/vel==v0-bitwise', 't0/acc==a0-bitwise', 't0/jer==j0-4ulp',
         # time ts, per order
@@ -32,13 +38,24 @@ SPEC = dict(
         'poly/eval==sum-a[i]x^i', 'poly/evar==sum-a[i]x^(n-1-i)', 'poly/eval-bitwise-on-exact-data', 'poly/evar-bitwise-on-exact-data',
         'poly/small-int-data-is-exact', 'poly/pointer-pair-form==size-form', 'poly/exported==inline', 'poly/swap-reverses',
         'poly/eval(swap(a))==evar(a)-bitwise', 'poly/swap-is-involution', 'poly/n=0-returns-0', 'poly/n=1-returns-a[0]',
+        # width companion (float and long double builds, harness/h_poly_w.c)
+        'w-c0==stored', 'w-exact/coefficient==documented-closed-form', 'w-coefficient-vs-documented-closed-form', 'w-ck[i]==(i+k)!/i!*c[i+k]',
+        'w-output==derivative-of-stored-polynomial', 'w-output-exact-when-recurrence-is-exact', 'w-t0/output==initial-value-exactly',
+        'w-t0/jer==j0-2eps', 'w-end/output==final-value', 'w-exact/end-bitwise', 'w-poly/n=0-returns-0', 'w-poly/eval==sum-a[i]x^i',
+        'w-poly/evar==sum-a[i]x^(n-1-i)', 'w-poly/pointer-pair-form==size-form', 'w-poly/swap-reverses',
+        'w-poly/eval(swap(a))==evar(a)-bitwise', 'w-poly/swap-is-involution',
     ],
     cov_files=['trajpoly3.c', 'trajpoly5.c', 'trajpoly7.c', 'poly.c'],
     cov_cases=64, cov_funcs=r'^a_trajpoly[357]_|^a_poly_(eval|evar|swap)',
     assumptions=[
         'only executions produced by this run are judged (runtime monitoring, not proof)',
         'gcc 12 / x86-64 LP64 little-endian, A_SIZE_POINTER=8; library rebuilt from /repo working tree with -fsanitize=address,undefined',
-        'a_real = double (A_SIZE_REAL=8), round-to-nearest, no FMA contraction (-ffp-contract=off); the float and long double builds are not executed',
+        'full harness: a_real = double (A_SIZE_REAL=8), round-to-nearest, no FMA contraction (-ffp-contract=off). The float (A_SIZE_REAL=4, SSE, no excess '
+        'precision) and x87 long double (A_SIZE_REAL=16, 64-bit significand) builds run the compact companion harness/h_poly_w.c (configs f32, f80; counters w-...): '
+        'integer data with ts in {1,2,1/2} (coefficients == documented closed forms, initial and final values == the data), full-mantissa data with magnitudes '
+        'and durations in 1e-2..1e2 (coefficients within 16 eps*sum|terms| of the closed forms, jer(0) within 2 eps|j0|, end residuals within the same C*eps*S with '
+        'eps of the working type), every accessor and output function against the binary128 derivative of the stored polynomial, and the exported a_poly_eval/evar/swap '
+        '(lengths 0..12) - all on exact-size 0xA5-filled heap blocks',
         'durations are positive and finite (1e-4..1e4), boundary values finite with magnitude 1e-3..1e3 (or 0 / small integers): no '
         'overflow, underflow, infinities or NaNs are fed in; "exactly at time zero" is judged with ==, i.e. bitwise for every non-zero '
         'value (the sign of a zero result is not judged)',
@@ -60,7 +77,9 @@ SPEC = dict(
                'forms copied from the header documentation); the residual constants 2^8/2^13/2^19 are calibrated, not derived - worst '
                'observed ratios (thorough, 16.8M data sets per seed, seeds 1..5) reach 18.0 / 578 / 3.48e4 (cubic / quintic / septic), i.e. >= 14x below the bound, '
                'while a wrong constant or sign moves a residual by Omega(S) = 1e9 x the bound; the a-priori Horner bounds are rigorous '
-               '(observed <= 0.61 of the bound). Negative or non-finite durations, subnormal/huge data and the float build are not explored.',
+               '(observed <= 0.61 of the bound). Negative or non-finite durations and subnormal/huge data are not explored. In the float and long double builds only the companion workload is '
+               'run (40 000 cases per width in quick, 1.6 M in thorough; durations 1e-2..1e2 rather than 1e-38..1e38, inline a_poly_* bodies only through their exported twins); '
+               'worst end residuals observed there stay >= 14x below C*eps*S, coefficient errors <= 0.45 of the 16 eps*sum|terms| bound (thorough, seeds 1..3).',
     technique='randomised input sweep with boundary-condition residual monitors, __float128 reference evaluation with a-priori error '
               'bounds, exact-arithmetic regime with bitwise oracles, under ASan+UBSan',
 )
